@@ -2,7 +2,7 @@
 import numpy as np
 
 import gen
-from core import run_graph_ops
+from core import quiet, run_graph_ops
 
 
 def ints(v):
@@ -39,7 +39,44 @@ def _unsigned_promotion(recipe, graph):
     return "unsigned-shape-through-flatten-promoted-to-float64" if (flat_u64 and float_type) else None
 
 
+def f15_graph(dtype=">u4"):
+    """the recorded failing input of F15 (findings/F15_unsigned_shape_through_flatten.py)"""
+    import nir
+    return nir.NIRGraph(
+        nodes={"in": nir.Input(np.array([2, 11, 5], dtype=dtype)), "f0": nir.Flatten(np.array([2, 11, 5], dtype=dtype), 1, 1),
+               "pool": nir.AvgPool2d(kernel_size=(1, 3), stride=np.array([1, 2]), padding=0), "f1": nir.Flatten(None, 1, -1),
+               "conv": nir.Conv1d(None, np.zeros((2, 2, 2)), 1, "same", 2, 1, np.zeros(2)), "out": nir.Output(None)},
+        edges=[("in", "f0"), ("f0", "pool"), ("pool", "f1"), ("f1", "conv"), ("conv", "out")])
+
+
+def _replay_f15(ctx, site, what):
+    """corpus case run first on every run: the listed finding is replayed against the real code, so that the run says
+    KNOWN-FINDING while it persists and nothing once it is repaired"""
+    import nir
+    g = f15_graph()
+    case = {"op": "corpus_F15", "input_dtype": ">u4", "shape": [2, 11, 5],
+            "chain": "Input -> Flatten(1,1) -> AvgPool2d((1,3),[1,2],0) -> Flatten(None,1,-1) -> Conv1d(None,'same') -> Output"}
+    ctx.case(case); ctx.count("corpus_F15")
+    try:
+        with quiet():
+            g.infer_types()
+    except Exception as e:  # noqa
+        flat_u64 = g.nodes["f0"].output_type["output"].dtype == np.dtype("uint64")
+        fl = getattr((g.nodes["pool"].output_type or {}).get("output"), "dtype", None) == np.dtype("float64")
+        sig = {"site": site, "what": what}
+        if flat_u64 and fl:
+            sig["cause"] = "unsigned-shape-through-flatten-promoted-to-float64"
+        ctx.violate(case, "infer_types raised on a consistent graph", sig, observed=f"{type(e).__name__}: {e}")
+        return
+    want = {"in": [2, 11, 5], "f0": [2, 11, 5], "pool": [2, 11, 2], "f1": [2, 22], "conv": [2, 22], "out": [2, 22]}
+    got = {k: (None if n.output_type.get("output") is None else [int(x) for x in n.output_type["output"]]) for k, n in g.nodes.items()}
+    if got != want:
+        ctx.violate(case, "inferred types differ from the fully annotated graph (unsigned shape arrays)",
+                    {"site": site, "what": "types", "edit": "corpus-F15"}, observed=got, required=want)
+
+
 def _run_main(ctx):
+    _replay_f15(ctx, "infer_types", "raised")
     rng = ctx.rng
     cases, obs, reqs = [], [], []
     for i in range(ctx.n(250)):
